@@ -52,6 +52,7 @@ def gen_cases(tier, seed):
         for be in ("numpy", "dask"):
             yield {"kind": "outputs", "cls": cls, "backend": be}
         yield {"kind": "copies", "cls": cls}
+    yield {"kind": "optimised"}
 
 
 def base_kwargs(cls):
@@ -463,8 +464,67 @@ def copies_case(case, res):
     res.sample({"cls": cls, "copies": ["like", "pickle", "cloudpickle", "deepcopy", "compute", "persist", "to_dask_array", "rechunk"]}, 1)
 
 
+_OPT_SCRIPT = r"""
+import sys, json
+import numpy as np, astropy.units as u
+from astropy.time import Time
+import pulsarbat as pb
+out = []
+def tryit(name, fn):
+    try:
+        fn(); out.append([name, "accepted"])
+    except ValueError:
+        out.append([name, "ValueError"])
+    except Exception as e:
+        out.append([name, type(e).__name__])
+x2 = np.zeros((4, 2)); c2 = np.zeros((4, 2), complex)
+tryit("sample_rate -1 Hz", lambda: pb.Signal(x2, sample_rate=-1 * u.Hz))
+tryit("sample_rate 0 Hz", lambda: pb.Signal(x2, sample_rate=0 * u.Hz))
+tryit("sample_rate array", lambda: pb.Signal(x2, sample_rate=[1, 2] * u.Hz))
+tryit("chan_bw -1 Hz", lambda: pb.RadioSignal(x2, sample_rate=1 * u.Hz, center_freq=1 * u.GHz, chan_bw=-1 * u.Hz))
+tryit("center_freq array", lambda: pb.RadioSignal(x2, sample_rate=1 * u.Hz, center_freq=[1, 2] * u.GHz, chan_bw=1 * u.Hz))
+tryit("start_time array", lambda: pb.Signal(x2, sample_rate=1 * u.Hz, start_time=Time(["2020-01-01", "2020-01-02"])))
+z = pb.Signal(x2, sample_rate=1 * u.Hz)
+tryit("assign sample_rate 0", lambda: setattr(z, "sample_rate", 0 * u.Hz))
+tryit("dtype float for baseband", lambda: pb.BasebandSignal(np.zeros((4, 2), object), sample_rate=1 * u.Hz, center_freq=1 * u.GHz))
+tryit("fullstokes 3 components", lambda: pb.FullStokesSignal(np.zeros((4, 2, 3)), sample_rate=1 * u.Hz, center_freq=1 * u.GHz, chan_bw=1 * u.Hz))
+print(json.dumps({"optimised": not __debug__, "results": out}))
+"""
+
+
+def optimised_case(case, res):
+    """The same refusals in an interpreter started with -O (assert statements are removed there)."""
+    import json
+    import os
+    import subprocess
+    import sys
+    from pbmc import REPO
+    env = dict(os.environ, PYTHONPATH=REPO, PYTHONOPTIMIZE="")
+    pr = subprocess.run([sys.executable, "-O", "-W", "ignore", "-c", _OPT_SCRIPT], capture_output=True, text=True, env=env, timeout=300)
+    res.transitions += 1
+    try:
+        rec = json.loads(pr.stdout.strip().splitlines()[-1])
+    except Exception:
+        res.violation("optimised|script failed", f"python -O run failed: {pr.stderr[-400:]}", case, None)
+        return
+    if not rec["optimised"]:
+        res.skipped["interpreter did not honour -O"] += 1
+        return
+    for name, outcome in rec["results"]:
+        res.transitions += 1
+        res.state(("optimised", name))
+        if outcome != "ValueError":
+            res.violation("optimised|invalid not refused under python -O", f"{name}: {outcome} (ValueError expected; validation must not "
+                          f"depend on assert statements)", case, {"what": name})
+        else:
+            res.hits["refused under python -O"] += 1
+
+
 def check_case(case):
     res = report.Result()
+    if case["kind"] == "optimised":
+        optimised_case(case, res)
+        return res
     {"ctor": ctor_case, "meta": meta_case, "setters": setters_case, "outputs": outputs_case, "copies": copies_case}[case["kind"]](case, res)
     return res
 
@@ -472,7 +532,7 @@ def check_case(case):
 def main(argv=None):
     return report.run_check(
         PID, gen_cases=gen_cases, check_case=check_case, describe=describe,
-        required_hits=["safe cast applied", "byte-swapped input", "zero-length but valid", "invalid rejected with ValueError",
+        required_hits=["refused under python -O", "safe cast applied", "byte-swapped input", "zero-length but valid", "invalid rejected with ValueError",
                        "zero-length AND empty sample shape rejected", "odd nchan with explicit alignment",
                        "invalid metadata rejected", "invalid assignment rejected", "operation outputs monitored",
                        "baseband stepped slice chain", "copies", "assignment then copy", "like with overrides", "like missing required -> ValueError"],
